@@ -322,6 +322,8 @@ class Intervals:
             return top
         if op == "shl":
             a = A(0); b = A(1)
+            if a[0] == a[1] and b[0] == b[1] and a[0] >= 0 and 0 <= b[0] < bits:        # one value: the exact (wrapping) result, `~0ULL << k`
+                v = (a[0] << b[0]) & ((1 << bits) - 1); return (v, v)
             if a[0] >= 0 and b[0] == b[1] and a[1] != INF: return clamp(a[0] << b[0], a[1] << b[0])
             return top
         if op == "or":
@@ -381,7 +383,33 @@ class Intervals:
             a = A(0); b = A(1)
             if a[0] == a[1] and b[0] == b[1]: return (a[0] ^ b[0],) * 2
             return (0, 1)
+        if op == "load" and i["t"].startswith("i"):
+            r = self._const_table_load(i, depth)
+            if r is not None: return r
         return top
+
+    def _const_table_load(self, i, depth):
+        """load of `table[idx]` where table is a constant global and idx ranges over few values: the range of the elements read"""
+        a = i.ops[0]; g = None
+        if a["k"] == "inst":
+            g = self.fn.imap[a["v"]]
+            while g is not None and g.op == "bitcast" and g.ops[0]["k"] == "inst": g = self.fn.imap[g.ops[0]["v"]]
+        if g is None or g.op != "getelementptr" or g.ops[0]["k"] != "global" or len(g["var"]) != 1: return None
+        by = global_bytes(self.fn.mod, g.ops[0]["v"])
+        if by is None: return None
+        v = g["var"][0]
+        ix = self.ival(v["idx"], depth + 1)
+        try:
+            k = self.key_of(v["idx"]); c = self.constraints_at(g.block).get(k) if k is not None else None
+        except RecursionError: c = None
+        if c is not None: ix = (max(ix[0], c[0]), min(ix[1], c[1]))
+        if ix[0] < 0 or ix[1] == INF or ix[1] - ix[0] > 256 or ix[0] > ix[1]: return None
+        sz = i["size"]; vals = []
+        for n in range(int(ix[0]), int(ix[1]) + 1):
+            off = g["coff"] + n * v["stride"]
+            if off < 0 or off + sz > len(by): return None          # (an out-of-range index is somebody else's finding)
+            vals.append(int.from_bytes(by[off:off + sz], "little"))
+        return (min(vals), max(vals))
 
     def _depends(self, v, target, seen=None):
         seen = seen or set()
